@@ -11,7 +11,7 @@ from vlib import say
 CONF = {
     "C04": {"quick": 96, "thorough": 3000, "batch": 6, "min_distinct": 8, "loops": [1, 2]},
     "C05": {"quick": 1600, "thorough": 60000, "batch": 100, "min_distinct": 20, "loops": [1, 2]},
-    "C06": {"quick": 1600, "thorough": 60000, "batch": 100, "min_distinct": 20, "loops": [1, 2]},
+    "C06": {"quick": 1600, "thorough": 60000, "batch": 100, "min_distinct": 20, "loops": [2, 1]},
     "C07": {"quick": 800, "thorough": 40000, "batch": 50, "min_distinct": 20, "loops": [1, 2], "env_alt": [{}, {"GODEBUG": "asynctimerchan=0"}]},
     "C07X": {"quick": 32, "thorough": 64, "batch": 2, "min_distinct": 1, "loops": [1]},
     "C08": {"quick": 480, "thorough": 20000, "batch": 30, "min_distinct": 20, "loops": [1, 2], "env_alt": [{}, {"GODEBUG": "asynctimerchan=0"}]},
